@@ -283,8 +283,12 @@ unsafe impl GlobalAlloc for Ledger {
                 slot = s.hi;
                 s.hi += 1;
             } else {
-                // table full: give the memory out untracked
-                return base as *mut u8;
+                // table full: hand out plain untracked memory instead
+                if !from_arena {
+                    System.dealloc(raw as *mut u8, Layout::from_size_align_unchecked(total, ralign));
+                }
+                drop(_g);
+                return System.alloc(layout);
             }
         }
         let id = s.next_id;
